@@ -31,6 +31,8 @@ pub struct Case {
 
 pub const SPECIAL: &[&str] = &[
     ")", "}", "{", "\"", "\r", "\0", "\u{1}", "\u{7f}", "(", ",", ":", "#", ".", "=", "*", "/", "$", "%", "é", "ß", "日", "😀", "\u{feff}", "\u{2028}", "\t", ";", "'", "\\", "@", "!", "<", ">", "-", "+", "a", "0", " ", "\n",
+    // letters that, to a case-insensitive comparison, are a plain letter in another case (Kelvin sign, long s, dotless i)
+    "\u{212a}", "\u{17f}", "\u{131}",
 ];
 
 static FRAGMENTS: OnceLock<Vec<String>> = OnceLock::new();
@@ -72,6 +74,70 @@ fn fragments() -> &'static Vec<String> {
     })
 }
 
+/// Character insertions, deletions and replacements at relative positions (shared with C06).
+pub fn mutate_text(text: String, mutations: &[(u32, u32, u32)], allow_stray: bool) -> String {
+    let mut text = text;
+    for (pos, kind, what) in mutations {
+        let chars: Vec<char> = text.chars().collect();
+        if chars.is_empty() {
+            break;
+        }
+        let i = ((*pos as u64 * chars.len() as u64) >> 32) as usize;
+        let mut sp: Vec<&str> = SPECIAL.to_vec();
+        if !allow_stray {
+            sp.retain(|s| *s != ")" && *s != "\r");
+        }
+        let ins = sp[((*what as u64 * sp.len() as u64) >> 32) as usize];
+        // (a look-alike letter goes where the letter it looks like stands, when there is one)
+        let twin = match ins {
+            "\u{212a}" => Some('k'),
+            "\u{17f}" => Some('s'),
+            "\u{131}" => Some('i'),
+            _ => None,
+        };
+        let (i, kind) = match twin {
+            Some(t) => {
+                let all: Vec<usize> = chars.iter().enumerate().filter(|(_, c)| c.eq_ignore_ascii_case(&t)).map(|(k, _)| k).collect();
+                // (preferably in a mnemonic: the `k` of `brk`, the `s` of `sta`/`asl`.., the `i` of `inc`/`bit`..)
+                let in_mnemonic: Vec<usize> = all
+                    .iter()
+                    .cloned()
+                    .filter(|&k| {
+                        let lo = k.saturating_sub(2);
+                        let hi = (k + 3).min(chars.len());
+                        let w: String = chars[lo..hi].iter().collect::<String>().to_lowercase();
+                        ["brk", "sta", "asl", "inc", "bit", "sei", "cli"].iter().any(|m| w.contains(m)) && (lo == 0 || !chars[lo.saturating_sub(1)].is_alphanumeric() || k - lo < 2)
+                    })
+                    .collect();
+                let at = if in_mnemonic.is_empty() { all } else { in_mnemonic };
+                if at.is_empty() {
+                    (i, *kind)
+                } else {
+                    (at[((*pos as u64 * at.len() as u64) >> 32) as usize], 2)
+                }
+            }
+            None => (i, *kind),
+        };
+        let mut out: String = chars[..i].iter().collect();
+        match kind % 3 {
+            0 => {
+                out.push_str(ins);
+                out.extend(chars[i..].iter());
+            }
+            1 => {
+                // deletion (a deletion may expose a stray ')' only if the text had one: fine)
+                out.extend(chars[i + 1..].iter());
+            }
+            _ => {
+                out.push_str(ins);
+                out.extend(chars[i + 1..].iter());
+            }
+        }
+        text = out;
+    }
+    text
+}
+
 pub fn text_of(c: &Case) -> (String, bool) {
     let mut text = match c.source {
         Source::Generated => {
@@ -101,36 +167,8 @@ pub fn text_of(c: &Case) -> (String, bool) {
             s
         }
     };
-    let mut mutated = false;
-    for (pos, kind, what) in &c.mutations {
-        let chars: Vec<char> = text.chars().collect();
-        if chars.is_empty() {
-            break;
-        }
-        let i = ((*pos as u64 * chars.len() as u64) >> 32) as usize;
-        let mut sp: Vec<&str> = SPECIAL.to_vec();
-        if !c.allow_stray {
-            sp.retain(|s| *s != ")" && *s != "\r");
-        }
-        let ins = sp[((*what as u64 * sp.len() as u64) >> 32) as usize];
-        let mut out: String = chars[..i].iter().collect();
-        match kind % 3 {
-            0 => {
-                out.push_str(ins);
-                out.extend(chars[i..].iter());
-            }
-            1 => {
-                // deletion (a deletion may expose a stray ')' only if the text had one: fine)
-                out.extend(chars[i + 1..].iter());
-            }
-            _ => {
-                out.push_str(ins);
-                out.extend(chars[i + 1..].iter());
-            }
-        }
-        text = out;
-        mutated = true;
-    }
+    let mutated = !c.mutations.is_empty() && !text.is_empty();
+    let text = mutate_text(text, &c.mutations, c.allow_stray);
     (text, mutated)
 }
 
@@ -270,6 +308,71 @@ pub fn prop(c: &Case, log: &mut CaseLog) -> Verdict {
     v
 }
 
+/// Two files, each with something in it that is not understood: each gets a diagnostic of its own. (What is said about
+/// one file must not make the parser overlook the other.)
+pub fn prop_two_files(entropy: &Vec<u32>, log: &mut CaseLog) -> Verdict {
+    let mut e = crate::gen::build::Ent::new(entropy);
+    let good = ["nop", "lda #1", "l1: rts", "    sta $d020", "// comment", ".byte 1, 2", "{ nop }", ""];
+    let bad = [")", "lda #", "foo bar", "}", "lda ($10", ".byte", "\"open", "/* unfinished", "br\u{212a}"];
+    let mut file = |e: &mut crate::gen::build::Ent, with_bad: bool, bad_last: bool| -> (String, bool) {
+        let mut lines: Vec<String> = (0..1 + e.below(4)).map(|_| (*e.pick(&good[..])).to_string()).collect();
+        let mut has_bad = false;
+        if with_bad {
+            let b = (*e.pick(&bad[..])).to_string();
+            // (an unterminated comment swallows what follows it: it goes last)
+            if bad_last || b.starts_with("/*") {
+                lines.push(b);
+            } else {
+                let at = e.below(lines.len() + 1);
+                lines.insert(at, b);
+            }
+            has_bad = true;
+        }
+        (lines.join("\n") + if e.chance(1, 2) { "\n" } else { "" }, has_bad)
+    };
+    let n = 1 + e.below(2);
+    let mut files = std::collections::BTreeMap::new();
+    let mut expect: Vec<String> = vec![];
+    let mut main = String::new();
+    for i in 0..n {
+        main.push_str(&format!(".import * from \"f{}.asm\"\n", i));
+    }
+    let (t, b) = file(&mut e, true, true);
+    main.push_str(&t);
+    if b {
+        expect.push("main.asm".into());
+    }
+    files.insert("main.asm".to_string(), main);
+    for i in 0..n {
+        let with_bad = e.chance(2, 3);
+        let (t, b) = file(&mut e, with_bad, false);
+        if b {
+            expect.push(format!("f{}.asm", i));
+        }
+        files.insert(format!("f{}.asm", i), t);
+    }
+    let p = Project { files, entry: "main.asm".into() };
+    let r = guarded(|| parse_project(&p).1);
+    let diags = match r {
+        Ok(d) => d,
+        Err(_) => {
+            log.label("sut-panic");
+            return Verdict::Pass;
+        }
+    };
+    log.label("two-files");
+    log.nontrivial = expect.len() >= 2;
+    for f in &expect {
+        if !diags.iter().any(|d| d.file.as_deref().map(|n| n.ends_with(f.as_str())).unwrap_or(false)) {
+            return Verdict::fail(
+                "file-with-errors-gets-no-diagnostic",
+                format!("{}\nsomething in {} is not understood, but no diagnostic names that file: {:?}", p.files.iter().map(|(n, t)| format!("--- {} ---\n{}", n, t)).collect::<Vec<_>>().join("\n"), f, diags.iter().map(|d| d.short()).collect::<Vec<_>>()),
+            );
+        }
+    }
+    Verdict::Pass
+}
+
 pub fn to_json(c: &Case) -> serde_json::Value {
     json!({"source": c.source, "entropy": c.entropy, "trivia": c.trivia, "mutations": c.mutations, "allow_stray": c.allow_stray, "text": text_of(c).0})
 }
@@ -285,12 +388,14 @@ pub fn strategy(allow_stray: bool) -> impl Strategy<Value = Case> {
 }
 
 pub fn run_check(ctx: &mut Ctx) {
-    ctx.rule = "texts = generator programs rendered with random trivia (comments incl. nested/multi-line/non-ASCII, CRLF, case flips) or concatenated line fragments of the repository's example sources, with 0-2 character insertions/deletions/replacements from a list of special characters at random positions; oracle: parse without diagnostics => upper-cased concatenated Display of the tokens == upper-cased text (CRLF->LF). non-trivial = mutated or containing non-ASCII; distinct by case hash".into();
+    ctx.rule = "texts = generator programs rendered with random trivia (comments incl. nested/multi-line/non-ASCII, CRLF, case flips) or concatenated line fragments of the repository's example sources, with 0-2 character insertions/deletions/replacements from a list of special characters at random positions; oracle: parse without diagnostics => upper-cased concatenated Display of the tokens == upper-cased text (CRLF->LF). A further campaign parses projects of two or three files, each with one line that is not understood (a stray bracket, half a statement, an unterminated string or comment, a keyword spelled with a look-alike letter): every such file is named by a diagnostic. non-trivial = mutated or containing non-ASCII; distinct by case hash".into();
     ctx.assumptions.push("letter case is compared after to_uppercase on both sides (the printer upper-cases keywords together with their leading trivia)".into());
     let n = ctx.tier.pick(60_000, 1_500_000);
     ctx.campaign_parallel("without-stray-insertions", n, 16, || strategy(false), prop, to_json);
     let n2 = ctx.tier.pick(30_000, 600_000);
     ctx.campaign_parallel("with-stray-paren-or-cr", n2, 16, || strategy(true), prop, to_json);
+    let n3 = ctx.tier.pick(20_000, 300_000);
+    ctx.campaign_parallel("two-files", n3, 16, || proptest::collection::vec(any::<u32>(), 6..40), prop_two_files, |en| json!({"two_files_entropy": en}));
     let m = ctx.label_count("mutated-and-parse-clean");
     let total = ctx.evaluations.max(1);
     ctx.health(m * 100 / total >= 3, format!("mutated texts that still parse clean: {}%", m * 100 / total));
@@ -298,6 +403,13 @@ pub fn run_check(ctx: &mut Ctx) {
 }
 
 pub fn replay(ctx: &mut Ctx, case: &serde_json::Value) {
+    if let Some(en) = case.get("two_files_entropy") {
+        match serde_json::from_value::<Vec<u32>>(en.clone()) {
+            Ok(en) => ctx.replay_one(&en, prop_two_files, case.clone()),
+            Err(e) => ctx.health(false, format!("replay case does not deserialize: {}", e)),
+        }
+        return;
+    }
     if let Some(t) = case.get("raw_text").and_then(|t| t.as_str()) {
         let t = t.to_string();
         ctx.replay_one(&t, |t, log| check_text(t, log), case.clone());
